@@ -124,9 +124,19 @@ func (l *loaded) expect(what, op, want string) bool {
 	return true
 }
 
+// scribbleAfterLoad (C20): when non-empty, every load is an Unmarshal from a caller-owned buffer that is OVERWRITTEN
+// right afterwards with this pattern (0 = 0x00, 1 = 0xff, 2 = pseudo-random); every later answer of the battery
+// is then an answer "after the caller reused its buffer".
+var scribbleAfterLoad = ""
+
 // load: a fresh instance that only knows the encoder, then Unmarshal of the stream.
 func (l *loaded) load() bool {
 	l.c.Do("trie.fresh " + curEnc)
+	if scribbleAfterLoad != "" {
+		l.c.Hit("legacy-load-then-overwrite-buffer:" + scribbleAfterLoad)
+		return l.expect("legacy stream must load without error (buffer overwritten afterwards)",
+			"trie.unmarshal-scribble "+lp.X(l.stream)+" "+scribbleAfterLoad, "ok")
+	}
 	return l.expect("legacy stream must load without error", "trie.unmarshal "+lp.X(l.stream), "ok")
 }
 
@@ -517,6 +527,25 @@ func ffPrefixes(c *lp.Ctx, size int) gen.KeySet {
 	return gen.KeySet{Keys: ks, Class: "ff-prefixes"}
 }
 
+// genC20legacy: C20's clause "Unmarshal neither modifies nor retains the input buffer ... also for legacy streams
+// whose prefixes are re-encoded during load": the C06 battery (every indexed key answers with its value and its
+// exact neighbours; allpref streams: exact absent-key answers and scans) on streams of every layout, loaded from a
+// buffer the caller overwrites right after Unmarshal returns.
+func genC20legacy(c *lp.Ctx) {
+	all := append(append([]string{}, Variants3...), Variants10...)
+	n := c.Pick(40, 200)
+	size := c.Pick(100, 300)
+	defer func() { scribbleAfterLoad = "" }()
+	for it := 0; it < n; it++ {
+		ks := keySet(c, it, size)
+		scribbleAfterLoad = fmt.Sprint(it % 3)
+		for j := 0; j < 2; j++ {
+			variant := all[(it*2+j)%len(all)]
+			runVariant(c, variant, ks.Class, ks.Keys, 1, c.Pick(20, 80), c.Pick(3, 10))
+		}
+	}
+}
+
 func genC06(c *lp.Ctx) {
 	all := append(append([]string{}, Variants3...), Variants10...)
 	n := c.Pick(150, 500)
@@ -852,4 +881,5 @@ func DirectCheck(stream []byte, keys []string, vals [][]byte, exact bool, c *lp.
 
 func init() {
 	lp.RegisterGen("C06", genC06)
+	lp.RegisterGen("C20", genC20legacy)
 }
